@@ -250,6 +250,8 @@ class Polyhedron(Shape3D):
 
         self._faces = [np.asarray(list(f)) for f in new_faces]
         self.sort_faces()
+        # The memoised edge list describes the unmerged mesh.
+        self.__dict__.pop("edges", None)
 
     @property
     def neighbors(self):
@@ -356,6 +358,8 @@ class Polyhedron(Shape3D):
             for i in range(len(self.faces)):
                 self._faces[i] = self._faces[i][::-1]
                 self._equations[i] *= -1
+        # Reordering faces changes which directed edges they contain.
+        self.__dict__.pop("edges", None)
 
     @property
     def vertices(self):
